@@ -1,6 +1,7 @@
 package verifsim
 
 import (
+	"sync/atomic"
 	"errors"
 	"fmt"
 	"io"
@@ -33,6 +34,7 @@ type pscript struct {
 	steps      []pstep
 	readBuf    int  // reader buffer size
 	readerQuit bool // reader side closes its file while blocked (after all steps)
+	reopens    int  // at end-of-stream the reader closes the FIFO and opens it again (this many times)
 }
 
 var pipeScripts = []pscript{
@@ -43,6 +45,8 @@ var pipeScripts = []pscript{
 	{name: "eof-only-after-last-writer", steps: []pstep{{"open", ""}, {"open", ""}, {"write", "x"}, {"close", ""}, {"wait", ""}, {"write", "y"}, {"close", ""}}, readBuf: 64},
 	{name: "close-unblocks-read", steps: []pstep{{"open", ""}, {"write", "z"}, {"wait", ""}}, readBuf: 64, readerQuit: true},
 	{name: "empty-stream", steps: []pstep{{"open", ""}, {"close", ""}}, readBuf: 64},
+	{name: "reopen-after-eof-waits-for-next-writer", steps: []pstep{{"open", ""}, {"write", "a\n"}, {"close", ""}, {"wait", ""}, {"wait", ""}, {"open", ""}, {"write", "b\n"}, {"close", ""}}, readBuf: 64, reopens: 1},
+	{name: "reopen-after-eof-no-writer-blocks", steps: []pstep{{"open", ""}, {"write", "a\n"}, {"close", ""}, {"wait", ""}}, readBuf: 64, reopens: 1, readerQuit: true},
 }
 
 func classify(err error) string {
@@ -95,6 +99,7 @@ func runRealFIFO(t *testing.T, sc pscript) string {
 	opened := make(chan struct{})
 	done := make(chan struct{})
 	var rf *os.File
+	var reopening atomic.Bool
 	go func() {
 		defer close(done)
 		f, err := os.OpenFile(path, os.O_RDONLY, os.ModeNamedPipe)
@@ -106,6 +111,7 @@ func runRealFIFO(t *testing.T, sc pscript) string {
 		rf = f
 		close(opened)
 		buf := make([]byte, sc.readBuf)
+		reopens := sc.reopens
 		for {
 			n, err := f.Read(buf)
 			if n > 0 {
@@ -113,6 +119,19 @@ func runRealFIFO(t *testing.T, sc pscript) string {
 			}
 			if err != nil {
 				obs = append(obs, "read:"+classify(err))
+				if errors.Is(err, io.EOF) && reopens > 0 {
+					reopens--
+					f.Close()
+					reopening.Store(true)
+					f, err = os.OpenFile(path, os.O_RDONLY, os.ModeNamedPipe)
+					reopening.Store(false)
+					if err != nil {
+						obs = append(obs, "reopen:"+classify(err))
+						return
+					}
+					obs = append(obs, "reopened")
+					continue
+				}
 				return
 			}
 		}
@@ -146,16 +165,29 @@ func runRealFIFO(t *testing.T, sc pscript) string {
 			time.Sleep(30 * time.Millisecond)
 		}
 	}
-	if sc.readerQuit {
+	if sc.readerQuit && !reopening.Load() {
 		rf.Close()
 	}
+	stuckInOpen := false
 	select {
 	case <-done:
-	case <-time.After(2 * time.Second):
-		obs = append(obs, "reader-still-blocked")
+	case <-time.After(time.Second):
+		stuckInOpen = reopening.Load()
+		if !stuckInOpen {
+			obs = append(obs, "reader-still-blocked")
+		}
 	}
 	for _, w := range writers {
 		w.Close()
+	}
+	if stuckInOpen {
+		// release the reader blocked in open(2)
+		if w, err := os.OpenFile(path, os.O_WRONLY, 0); err == nil {
+			w.Close()
+			<-done
+		}
+		obs = obs[:0:0]
+		return "reader blocked in re-open"
 	}
 	pre := ""
 	if openBlockedSeen {
@@ -165,10 +197,11 @@ func runRealFIFO(t *testing.T, sc pscript) string {
 }
 
 type obsBox struct {
-	obs  pipeObs
-	done bool
-	f    *simrt.File
-	opened bool
+	obs       pipeObs
+	done      bool
+	f         *simrt.File
+	opened    bool
+	reopening bool
 }
 
 //go:norace
@@ -194,6 +227,7 @@ func runSimPipe(t *testing.T, sc pscript, seed uint64) string {
 			}
 			box.f, box.opened = f, true
 			buf := make([]byte, sc.readBuf)
+			reopens := sc.reopens
 			for {
 				n, err := f.Read(buf)
 				if n > 0 {
@@ -201,6 +235,21 @@ func runSimPipe(t *testing.T, sc pscript, seed uint64) string {
 				}
 				if err != nil {
 					box.add("read:" + classify(err))
+					if errors.Is(err, io.EOF) && reopens > 0 {
+						reopens--
+						f.Close()
+						box.reopening = true
+						f, err = simrt.OpenFile(path, os.O_RDONLY, os.ModeNamedPipe)
+						box.reopening = false
+						if err != nil {
+							box.add("reopen:" + classify(err))
+							box.done = true
+							return
+						}
+						box.f = f
+						box.add("reopened")
+						continue
+					}
 					box.done = true
 					return
 				}
@@ -230,11 +279,11 @@ func runSimPipe(t *testing.T, sc pscript, seed uint64) string {
 				quiesce()
 			}
 		}
-		if sc.readerQuit {
+		if sc.readerQuit && !box.reopening {
 			box.f.Close()
 		}
 		quiesce()
-		if !box.done {
+		if !box.done && !box.reopening {
 			box.add("reader-still-blocked")
 		}
 		pre := ""
@@ -242,6 +291,9 @@ func runSimPipe(t *testing.T, sc pscript, seed uint64) string {
 			pre = "open-blocked | "
 		}
 		result = pre + normalise(box.obs)
+		if box.reopening {
+			result = "reader blocked in re-open"
+		}
 		sim.Drain()
 		for _, w := range writers {
 			w.Close()
